@@ -403,6 +403,9 @@ func (s *Skiplist) Search(key []byte) kv.ValueStruct {
 
 	valOffset, valSize := n.getValueOffset()
 	vs := s.arena.getVal(valOffset, valSize)
+	// The version is not part of the encoded value: report the one of the
+	// stored key so callers can compare hits from different sources.
+	vs.Version = kv.ParseTs(nextKey)
 	return vs
 }
 
